@@ -48,15 +48,15 @@ def expand_a(job, P, ob, where, entry, rho_ok):
             good = len(it) == 3 and it[0]["len"] == [32, 32] and rho_ok(it[0]["src"]) and it[1]["len"] == [1, 1] and it[1]["consts"] == "%02x" % s \
                 and it[2]["len"] == [1, 1] and it[2]["consts"] == "%02x" % r
             rd = absorb.reads(job, x["id"])
-            good = good and len(rd) >= 1 and all(d["len"] == "3" for d in rd)
+            good = good and len(rd) >= 1  # read granularity is not semantic (the XOF model keeps reads sequential)
             if good:
                 srcs.add(it[0]["src"])
             else:
                 ok = False
-                bad = {"instance": t, "expected": "rho(32) | %02x | %02x, 3-byte reads" % (s, r), "absorbed": x["rendered"][:200], "reads": rd[:3]}
+                bad = {"instance": t, "expected": "rho(32) | %02x | %02x" % (s, r), "absorbed": x["rendered"][:200], "reads": rd[:3]}
                 break
     ob(ok and len(srcs) == 1, "expand-a:%s" % entry,
-       {"rule": "ExpandA: k*l SHAKE128 instances in row-major order, instance (r,s) absorbs rho | s | r and is read 3 bytes at a time", "entry": job["root"],
+       {"rule": "ExpandA: k*l SHAKE128 instances in row-major order, exactly one instance per matrix entry, instance (r,s) absorbs rho | s | r", "entry": job["root"],
         "instances_found": len(xs), "expected": k * l, "first_mismatch": bad, "rho_sources": sorted(srcs)})
     return sorted(srcs)[0] if len(srcs) == 1 else None
 
@@ -73,12 +73,12 @@ def expand_s(job, P, ob, where, entry, seed_ok):
             ctr = "".join(i["consts"] or "??" for i in it[1:])
             good = len(it) in (2, 3) and it[0]["len"] == [64, 64] and seed_ok(it[0]["src"]) and sum(i["len"][0] for i in it[1:]) == 2 and ctr == le16(t)
             rd = absorb.reads(job, x["id"])
-            good = good and len(rd) >= 1 and all(d["len"] == "1" for d in rd)
+            good = good and len(rd) >= 1
             if not good:
                 ok = False
-                bad = {"instance": t, "expected": "rho'(64) | %s, 1-byte reads" % le16(t), "absorbed": x["rendered"][:200], "reads": rd[:3]}
+                bad = {"instance": t, "expected": "rho'(64) | %s" % le16(t), "absorbed": x["rendered"][:200], "reads": rd[:3]}
                 break
-    ob(ok, "expand-s:%s" % entry, {"rule": "ExpandS: l+k SHAKE256 instances in order, instance r absorbs rho' | IntegerToBytes(r, 2) and is read one byte at a time",
+    ob(ok, "expand-s:%s" % entry, {"rule": "ExpandS: l+k SHAKE256 instances in order, exactly one instance per polynomial, instance r absorbs rho' | IntegerToBytes(r, 2)",
                                    "entry": job["root"], "instances_found": len(xs), "expected": k + l, "first_mismatch": bad})
 
 
